@@ -262,7 +262,7 @@ int main(int argc, char **argv) {
     mc_parallel("L3: local part length 0..70 x 5 shapes x 5 domains", 71, l3_lpart, NULL);
     mc_parallel("L3: domain length 1..262 x label sizes x root dot", 262, l3_domlen, NULL);
     mc_parallel("L3: 0-4 '@' at every position of 4 skeletons; every '['..']' placement", 1, l3_at, NULL);
-    int N = mc_thorough ? 7 : 6;
+    int N = mc_thorough ? 8 : 6;
     memset(&L1E, 0, sizeof L1E); L1E.A = SIGC; L1E.nA = NSIGC; L1E.N = N; L1E.k = 3; L1E.fn = l1_cb;
     char nm[96]; snprintf(nm, sizeof nm, "L1: all strings of <= %d tokens over {a . @ [ ] \" \\ SP 1 : - U+0416}", N);
     mc_parallel(nm, mc_enum_shards(&L1E), l1_shard, NULL);
